@@ -18,6 +18,7 @@ pub mod code {
 use super::*;
 use super::spec::*;
 
+pub enum IntervalError { InvalidBounds, EmptyInterval }
 //@item src/interval.rs enum Interval
 // #[derive(PartialEq)] of the enum, restated (derive output is invisible at source level; decided by Kani c14_partial_eq_*)
 impl<T: PartialOrd> PartialEq for Interval<T> {
